@@ -546,7 +546,7 @@ func genAny(t *rapid.T) *amf0ref.Val {
 	return &v
 }
 
-var callNames = []string{"onStatus", "play", "createStream", "closeStream", "FCPublish", "releaseStream", "onBWDone", "pause", "|RtmpSampleAccess", "", "Connect", "publish2", "_Result", "getStreamLength"}
+var callNames = []string{"onStatus", "play", "createStream", "closeStream", "FCPublish", "releaseStream", "onBWDone", "pause", "|RtmpSampleAccess", "", "Connect", "publish2", "_Result", "getStreamLength", "Publish", "CONNECT", "_ERROR", "_error ", "connect\x00", "CreateStream", " connect", "_results"}
 
 func genU32(t *rapid.T) uint32 {
 	if rapid.Bool().Draw(t, "u32k") {
@@ -973,7 +973,7 @@ func TestHistory(t *testing.T) {
 	ev.Rapid(t, "history", 5000, 300000, func(t *rapid.T) {
 		c := genHistory(t)
 		var st hstats
-		err := ev.Try(func() error {
+		err := ev.WithTimeout(2*60e9, func() error { // (a history takes milliseconds; a reader waiting for bytes that never come is a lost message)
 			var e error
 			st, e = runHistory(c)
 			return e
@@ -1077,7 +1077,7 @@ func TestManyPending(t *testing.T) {
 		if c.Stride < 1 {
 			c.Stride = 1
 		}
-		err := ev.Try(func() error { return runMany(c) })
+		err := ev.WithTimeout(5*60e9, func() error { return runMany(c) })
 		var cl []string
 		if c.N > 4096 {
 			cl = append(cl, "more-than-4096")
